@@ -157,7 +157,7 @@ func assocLists(in Input) (boss, kids, pets []RecIn) {
 func gRecs(rs []RecIn) string { return lib.ListOf(rs, gRec) }
 
 func term(in Input, o Obs) string {
-	kind := map[string]string{"create": "OCreate", "save": "OSave", "update": "OUpdate", "updates": "OUpdate",
+	kind := map[string]string{"create_in_batches": fmt.Sprintf("(OCreateInBatches %s)", lib.Z(int64(in.Batch))), "create": "OCreate", "save": "OSave", "update": "OUpdate", "updates": "OUpdate",
 		"update_column": "OUpdateColumn", "update_columns": "OUpdateColumn", "delete": "ODelete", "find": "OFind", "first": "OFirst"}[in.Op]
 	boss, kids, pets := assocLists(in)
 	assocs := lib.App("mk_assocs", "("+gTy("Boss")+", "+gTy("Kid")+", "+gTy("Pet")+")", gRecs(boss), gRecs(kids), gRecs(pets))
@@ -275,7 +275,7 @@ func (g *gen) input(edge bool) Input {
 	r := g.r
 	g.nextTag = 100
 	in := Input{TxMode: "default", PayVia: "map_db", SetKey: "db", Pay: int64(r.Range(50, 99))}
-	in.Op = lib.Pick(r, []string{"create", "create", "create", "create", "save", "save", "update", "updates", "updates", "update_column", "update_columns", "delete", "delete", "find", "find", "first"})
+	in.Op = lib.Pick(r, []string{"create", "create", "create", "create_in_batches", "create_in_batches", "save", "save", "update", "updates", "updates", "update_column", "update_columns", "delete", "delete", "find", "find", "first"})
 	in.Type = lib.Pick(r, []string{"T1", "T1", "T1", "T2", "T2", "T0", "T3", "T4", "T5", "T6", "T7", "T8", "T9", "T10", "T11"})
 	nseed := r.Range(0, 5)
 	if in.Op != "create" && r.Chance(4, 5) {
@@ -298,13 +298,25 @@ func (g *gen) input(edge bool) Input {
 		if edge && r.Chance(1, 4) {
 			n = 0
 		}
+		if in.Op == "create_in_batches" {
+			// slices only (gorm slices the reflect value), every relation between length and batch size
+			in.Shape = lib.Pick(r, []string{"ptr_slice_val", "ptr_slice_val", "slice_val", "ptr_slice_ptr", "slice_ptr"})
+			in.Batch = r.Range(1, 4)
+			n = lib.Pick(r, []int{in.Batch - 1, in.Batch, in.Batch + 1, 2*in.Batch - 1, 2 * in.Batch, 2*in.Batch + 1, 3 * in.Batch, r.Range(0, 7)})
+			if n < 0 {
+				n = 0
+			}
+			if n > 8 {
+				n = 8
+			}
+		}
 		if isStruct(in.Shape) {
 			n = 1
 		}
 		for i := 0; i < n; i++ {
 			var rec RecIn
 			switch in.Op {
-			case "create":
+			case "create", "create_in_batches":
 				rec = RecIn{Tag: g.tag(), Val: int64(r.Range(1, 40))}
 			case "save":
 				switch {
@@ -514,7 +526,7 @@ func main() {
 
 	g := &gen{r: lib.NewRng(a.Seed)}
 	r := g.r
-	budget := 700
+	budget := 850
 	if a.Tier == "thorough" {
 		budget = 5000
 	}
@@ -529,10 +541,12 @@ func main() {
 		if n == 0 {
 			return
 		}
+		kinds := []string{"", "", "not_found", "not_found", "invalid_tx", "missing_where", "invalid_value", "empty_slice", "invalid_data"}
 		if exhaustive {
 			for k := 0; k < n; k++ {
 				in := base
 				in.Fails = []int{k}
+				in.FailKind = kinds[(k+len(base.Recs))%len(kinds)]
 				add(kind, in)
 			}
 			return
@@ -557,6 +571,9 @@ func main() {
 		case 5:
 			in.Sets = []int{r.Intn(n)}
 			in.Fails = []int{r.Intn(n)}
+		}
+		if len(in.Fails) > 0 {
+			in.FailKind = lib.Pick(r, kinds)
 		}
 		add(kind, in)
 	}
@@ -609,6 +626,19 @@ func main() {
 			}
 		}
 	}
+	// CreateInBatches: every relation between length and batch size, a failure at every invocation
+	for _, tb := range []struct {
+		ty   string
+		n, b int
+	}{{"T1", 3, 2}, {"T4", 5, 3}, {"T10", 4, 2}, {"T6", 7, 3}, {"T5", 2, 2}, {"T1", 1, 3}, {"T3", 5, 2}} {
+		for _, txm := range []string{"default", "outer", "skipdefault"} {
+			in := Input{Op: "create_in_batches", Type: tb.ty, Shape: lib.Pick(r, []string{"ptr_slice_val", "ptr_slice_ptr", "slice_val"}), TxMode: txm, Batch: tb.b, PayVia: "map_db", SetKey: "field"}
+			for i := 1; i <= tb.n; i++ {
+				in.Recs = append(in.Recs, RecIn{Tag: int64(100 + i), Val: int64(i)})
+			}
+			withFaults("directed", in, a.Tier == "thorough" || txm == "default")
+		}
+	}
 	for out != nil && len(out.Cases) < budget {
 		edge := r.Chance(15, 100)
 		in := g.input(edge)
@@ -651,6 +681,6 @@ func main() {
 			}
 		}
 	}
-	out.Extra["rule"] = "cases = operation {Create, Save, Update, Updates(map by column / by field name / struct), UpdateColumn(s), Delete, Find, First} x 12 model types (hook presence x pointer/value receivers, incl. none and mixed) x argument shape {*T, T, []T, *[]T, []*T, *[]*T, *[n]T, [n]T, *[n]*T, [n]*T} x 0..6 records x has-many/belongs-to values with hooks of their own (incl. one keyed belongs-to record shared by several owners of a slice) x SkipHooks x {default transaction, explicit outer transaction, SkipDefaultTransaction} x failure injected at one or two hook invocations x SetColumn from before-hooks; distinct = distinct (op,type,shape,n,associations,skip,txmode,fails,sets,payload form) tuples; non-trivial = at least 2 hook invocations observed and (a failing invocation was reached, or more than one record, or a SetColumn call)"
+	out.Extra["rule"] = "cases = operation {Create, CreateInBatches (every relation of length to batch size), Save, Update, Updates(map by column / by field name / struct), UpdateColumn(s), Delete, Find, First} x 12 model types (hook presence x pointer/value receivers, incl. none and mixed) x argument shape {*T, T, []T, *[]T, []*T, *[]*T, *[n]T, [n]T, *[n]*T, [n]*T} x 0..6 records x has-many/belongs-to values with hooks of their own (incl. one keyed belongs-to record shared by several owners of a slice) x SkipHooks x {default transaction, explicit outer transaction, SkipDefaultTransaction} x failure injected at one or two hook invocations (plain errors and errors wrapping gorm's sentinel errors ErrRecordNotFound / ErrInvalidTransaction / ErrMissingWhereClause / ErrInvalidValue / ErrEmptySlice / ErrInvalidData) x SetColumn from before-hooks; distinct = distinct (op,type,shape,n,associations,skip,txmode,fails,sets,payload form) tuples; non-trivial = at least 2 hook invocations observed and (a failing invocation was reached, or more than one record, or a SetColumn call)"
 	lib.Must(out.Flush())
 }
